@@ -296,16 +296,16 @@ def crash_points(ops):
 
 
 def run_crash(r, seed, wl, pt, second=None, info=None):
-    """one execution with a crash at pt; second = (j, when): the component that retries the interrupted step is killed again at
-    the j-th in-scope mutation of that retry (a second crash during recovery); info (dict) receives the retry's mutations"""
+    """one execution with a crash at pt.  second = (c, side2, j, when): a SECOND crash - the c-th command issued after the
+    recovery from the first one (the retry of the interrupted step, or a later step) loses its client (side2 = 'client') or the
+    server (side2 = 'server') at the j-th in-scope mutation that component performs during that command.  info (dict) receives,
+    from the single-crash execution, the mutations of every later command."""
     name, scheme, dbsize = wl
     case = {'workload': name, 'scheme': scheme, 'db': dbsize, 'crash': pt}
     if second:
-        case['second_crash_in_retry'] = {'mutation': second[0], 'when': second[1]}
+        case['second_crash'] = {'command': second[0], 'side': second[1], 'mutation': second[2], 'when': second[3]}
     core.note_case(case)
     site = '%s/%s-%s-%s' % (pt['handler'], pt['when'], pt['kind'], pt['file'])
-    if second:
-        site += '+retry-crash'
     side = 'server' if pt['component'].startswith('server') else 'client'
     run = Run(seed, scheme, dbsize, arm=(pt['component'], pt['k'], pt['when']))
     r['evaluations'] += 1
@@ -315,19 +315,22 @@ def run_crash(r, seed, wl, pt, second=None, info=None):
     r.count(side + '-crashes')
     if pt['kind'] == 'write' and dbsize == 'big' and pt['file'] == 'edb':
         r.count('multi-chunk-writes')
+    st8 = {'site': site, 'phase': 'before-first', 'cmd': 0, 'second_done': False}
 
     def bad(kind, expected, observed):
-        r.v(PROPERTY, side, kind, site, dict(case, log=run.log), expected, observed)
+        r.v(PROPERTY, side, kind, st8['site'], dict(case, log=run.log), expected, observed)
         r.outcome(kind)
 
-    def recover(step):
+    def recover(step, dead_side):
         """restart the dead component on the same directory and look at what a user can see; False = fatal"""
         run.fs.arm = None
         run.fs.crashed = None
-        if side == 'server':
+        if dead_side == 'server':
             run.w.start_server()
-        if step == 'create' and side == 'client':
+        if step == 'create' and dead_side == 'client':
             run.sid = ''      # the sid was never reported: the user creates the service again
+            return True
+        if not run.sid:
             return True
         st = run.probe()
         disk = run.server_state_on_disk()
@@ -346,56 +349,87 @@ def run_crash(r, seed, wl, pt, second=None, info=None):
             return False
         return True
 
+    def issue(step):
+        """one command; after the first recovery its mutations are recorded (single-crash run) or it is armed (second crash)"""
+        if st8['phase'] != 'after-first':
+            return run.cli(step)
+        comps = {'client': 'client#%d' % (run.ncli + 1), 'server': run.w.server_component()}
+        base = {sd: len(run.fs.ops[cp]) for sd, cp in comps.items()}
+        c = st8['cmd']
+        st8['cmd'] += 1
+        if second and not st8['second_done'] and second[0] == c:
+            later = info['later'][c]
+            scope = [k for k, op in enumerate(later[second[1]]) if op[2] in IN_SCOPE[second[1]]]
+            run.fs.arm = (comps[second[1]], base[second[1]] + scope[second[2]], second[3])
+            st8['armed'] = True
+        o = run.cli(step)
+        if info is not None and not second:
+            info.setdefault('later', []).append({'step': step, 'client': list(run.fs.ops[comps['client']][base['client']:]),
+                                                 'server': list(run.fs.ops[comps['server']][base['server']:])})
+        return o
+
     try:
         run.w.start_server()
         crashed_step = None
+        fatal = False
         for step in STEPS[:-1]:
-            o = run.cli(step)
+            o = issue(step)
             r['transitions'] += 1
-            if run.fs.crashed and crashed_step is None:
-                crashed_step = step
-                if not recover(step):
+            crashed_now = run.fs.crashed
+            if st8.pop('armed', False) and not crashed_now:
+                bad('second-crash-point-not-reached', 'the armed mutation of command %d is executed' % second[0], 'command finished without reaching it')
+                fatal = True
+                break
+            if crashed_now:
+                dead = 'server' if crashed_now[0].startswith('server') else 'client'
+                if crashed_step is None:
+                    crashed_step = step
+                    st8['phase'] = 'after-first'
+                else:
+                    st8['second_done'] = True
+                    st8['site'] = site + '+second-crash/%s/%s' % (step, dead)
+                    r.count('second-crashes')
+                if not recover(step, dead):
+                    fatal = True
                     break
-                fatal = False
-                attempt = 0
+                tries = 0
                 while not run.post_ok(step):
-                    attempt += 1
+                    tries += 1
                     r.count('retries')
-                    comp2 = run.w.server_component() if side == 'server' else 'client#%d' % (run.ncli + 1)
-                    base = len(run.fs.ops[comp2])
-                    if second and attempt == 1:
-                        # the j-th in-scope mutation of the retry, counted on the component that died the first time
-                        scope = [k for k, op in enumerate(info['retry_ops']) if op[2] in IN_SCOPE[side]]
-                        run.fs.arm = (comp2, base + scope[second[0]], second[1])
-                    o2 = run.cli(step)
+                    o2 = issue(step)
                     r['transitions'] += 1
-                    if info is not None and attempt == 1 and not second:
-                        info['retry_ops'] = list(run.fs.ops[comp2][base:])
-                    if second and attempt == 1:
-                        if not run.fs.crashed:
-                            bad('second-crash-point-not-reached', 'the armed mutation of the retry is executed', 'retry finished without reaching it')
-                            fatal = True
-                            break
+                    crashed2 = run.fs.crashed
+                    if st8.pop('armed', False) and not crashed2:
+                        bad('second-crash-point-not-reached', 'the armed mutation of command %d is executed' % second[0], 'command finished without reaching it')
+                        fatal = True
+                        break
+                    if crashed2:
+                        dead2 = 'server' if crashed2[0].startswith('server') else 'client'
+                        st8['second_done'] = True
+                        st8['site'] = site + '+second-crash/%s/%s' % (step, dead2)
                         r.count('second-crashes')
-                        if not recover(step):
+                        if not recover(step, dead2):
                             fatal = True
                             break
                         continue
                     if o2['exc'] and not run.post_ok(step):
-                        bad('interrupted-step-cannot-be-completed', '%s succeeds when retried%s' % (step, ' after a second crash' if attempt > 1 else ''), o2['exc'])
+                        bad('interrupted-step-cannot-be-completed', '%s succeeds when retried%s' % (step, ' after the second crash' if st8['second_done'] else ''), o2['exc'])
                         fatal = True
                     break
                 else:
-                    if attempt == 0:
+                    if tries == 0:
                         r.count('visibly-completed')
                 if fatal:
                     break
             elif o['exc']:
                 bad('workflow-cannot-continue', 'step %s succeeds%s' % (step, ' after the crash in ' + crashed_step if crashed_step else ''), o['exc'])
+                fatal = True
                 break
-        else:
+        if not fatal:
             if crashed_step is None:
                 bad('crash-point-not-reached', 'the armed mutation is executed', 'workflow finished without reaching it')
+            if second and not st8['second_done']:
+                bad('second-crash-point-not-reached', 'command %d is issued' % second[0], 'workflow finished earlier')
             for w in list(run.db) + [b'absent']:
                 o = run.cli('search', w)
                 r['transitions'] += 1
@@ -411,24 +445,31 @@ def run_crash(r, seed, wl, pt, second=None, info=None):
     except Exception as e:
         if isinstance(e, crashfs.Crash):
             raise
-        r.v(PROPERTY, side, 'harness-exception', site + ':' + type(e).__name__, dict(case, log=run.log), 'execution completes', core.exc_text(e))
+        r.v(PROPERTY, side, 'harness-exception', st8['site'] + ':' + type(e).__name__, dict(case, log=run.log), 'execution completes', core.exc_text(e))
     finally:
         run.close()
     if r['evaluations'] % 11 == 1:
         r.sample(case)
 
 
+def second_targets(info):
+    out = []
+    for c, later in enumerate(info.get('later') or []):
+        for sd in ('client', 'server'):
+            n = len([op for op in later[sd] if op[2] in IN_SCOPE[sd]])
+            for j in range(n):
+                for when in ('before', 'after'):
+                    out.append((c, sd, j, when))
+    return out
+
+
 def run_double(r, seed, wl, pt):
-    """all second crashes inside the retry of the step interrupted at pt"""
+    """every second crash after the recovery from pt: in the retry of the interrupted step or in any later step, client or
+    server, before/after every in-scope mutation"""
     info = {}
-    probe_r = core.Result()
-    run_crash(probe_r, seed, wl, pt, info=info)            # the single-crash execution (also run, and reported, by the plain units)
-    ops = info.get('retry_ops') or []
-    side = 'server' if pt['component'].startswith('server') else 'client'
-    n = len([op for op in ops if op[2] in IN_SCOPE[side]])
-    for j in range(n):
-        for when in ('before', 'after'):
-            run_crash(r, seed, wl, pt, second=(j, when), info=info)
+    run_crash(core.Result(), seed, wl, pt, info=info)      # the single-crash execution (also run, and reported, by the plain units)
+    for tgt in second_targets(info):
+        run_crash(r, seed, wl, pt, second=tgt, info=info)
 
 
 def units(tier, seed):
@@ -518,10 +559,11 @@ def replay(case, seed):
             r.v(PROPERTY, 'harness', 'virtual-vs-sigkill-disagreement', 'crashfs', case, 'same tree', b)
         return r['violations']
     wl = (case['workload'], case['scheme'], case['db'])
-    if case.get('second_crash_in_retry'):
+    if case.get('second_crash'):
         info = {}
         run_crash(core.Result(), seed, wl, case['crash'], info=info)
-        run_crash(r, seed, wl, case['crash'], second=(case['second_crash_in_retry']['mutation'], case['second_crash_in_retry']['when']), info=info)
+        sc = case['second_crash']
+        run_crash(r, seed, wl, case['crash'], second=(sc['command'], sc['side'], sc['mutation'], sc['when']), info=info)
         return r['violations']
     run_crash(r, seed, wl, case['crash'])
     return r['violations']
